@@ -25,4 +25,9 @@ hdr = ("# Seeded changes\n\nEach directory holds `patch.diff` (the change), `dem
        "suite keeps its 246 baseline passes) and `eval.json` (what `./check` reported with the change applied).\n\n"
        "| id | property | needs, in order to manifest | quick tier | thorough tier | check strengthened because of it |\n|---|---|---|---|---|---|\n")
 open(os.path.join(os.path.dirname(os.path.abspath(__file__)), "seeded", "README.md"), "w").write(hdr + "\n".join(rows) + "\n")
+design = os.path.join(os.path.dirname(os.path.abspath(__file__)), "DESIGN.md")
+txt = open(design).read()
+a, b = txt.index("<!-- SEED-TABLE-BEGIN -->"), txt.index("<!-- SEED-TABLE-END -->")
+table = "| id | property | needs, in order to manifest | quick tier | thorough tier | check strengthened because of it |\n|---|---|---|---|---|---|\n" + "\n".join(rows) + "\n"
+open(design, "w").write(txt[:a] + "<!-- SEED-TABLE-BEGIN -->\n" + table + txt[b:])
 print(len(rows), "rows")
